@@ -550,6 +550,8 @@ class Index:
             if d in ("tuple", "list", "set", "frozenset", "sorted") and len(node.args) == 1 and not node.keywords:
                 v = f(node.args[0])
                 return {"tuple": tuple, "list": list, "set": set, "frozenset": frozenset, "sorted": sorted}[d](v)
+            if d in ("set", "list", "tuple", "frozenset") and not node.args and not node.keywords:
+                return {"set": set, "list": list, "tuple": tuple, "frozenset": frozenset}[d]()
             if d == "dict" and not node.args:
                 return {k.arg: f(k.value) for k in node.keywords}
             if d == "range" and not node.keywords:
